@@ -26,6 +26,8 @@ LEVEL_NOTE = ('pinv / LU / Cholesky / splu numerics are SciPy\'s (contract: Penr
 RULE = ('matrices: SPD, nonsymmetric, singular with identically zero rows and columns, 1x1, all-zero, real/complex, n<=10; '
         'solvers pinv/lu/cholesky/splu/cg/gmres/bicgstab/gauss_seidel/jacobi/... /None/callable/(name,opts); b (n,) and '
         '(n,1); sequences of 3-5 calls on one object vs dense reference and vs a fresh object.  Non-trivial: nonzero matrix.')
+RULE += (' '
+         'Also matrices that need pivoting (tiny / zero diagonal entries; direct solvers only), integer right-hand sides and real right-hand sides for complex matrices (direct solvers only).')
 TRUSTED = ['scipy.linalg pinv / lu_factor / cho_factor, scipy.sparse.linalg.splu']
 PARTIAL = ['minimum-norm least squares of pinv and exactness of LU/Cholesky/splu: SciPy contracts checked by the oracle']
 
